@@ -7,6 +7,7 @@ import (
 	"math/rand"
 	"sort"
 	"strings"
+	"time"
 )
 
 func init() {
@@ -74,6 +75,41 @@ func checkC01(c *Ctx) {
 		c.Case(src, len(g.Used) >= 3)
 	}
 	c.Cov("feature_counts", featCount)
+	// exhaustive small-scope sets (seed independent; quick samples them by a seed-dependent stride)
+	small := c01SmallCases(c.Thorough())
+	stride := 1
+	if !c.Thorough() {
+		stride = 4
+	}
+	groups := map[string]int{}
+	for i, sc := range small {
+		if sc.Group != "template" && (i+int(c.Seed))%stride != 0 {
+			continue
+		}
+		src, prog := sc.Src, sc.Prog
+		if src == "" {
+			src = renderProgram(prog)
+		}
+		var o Obs
+		if prog == nil {
+			tree, errs := parseFile(src)
+			if len(errs) > 0 {
+				c.Fail("template-does-not-parse", strings.Join(errs, ";"), map[string]any{"check": "small", "src": src})
+				continue
+			}
+			prog = dumpStmts(tree)
+		}
+		o = runSource(src, RunOpt{Timeout: 2 * time.Second})
+		if o.ParseErr {
+			c.Fail("generated-program-does-not-parse", o.ErrMsg, map[string]any{"check": "small", "src": src})
+			continue
+		}
+		groups[sc.Group]++
+		cases = append(cases, semCase{ID: n + i, Src: src, Prog: prog, Obs: o, Meta: map[string]any{"features": []string{sc.Group}}})
+		c.Case(src, true)
+	}
+	c.Cov("small_scope_groups", groups)
+	c.Cov("exhaustive", c.Thorough())
 	vs, err := semValidate(c, cases, 30000, c.Pick(4, 8), 2)
 	if err != nil {
 		c.Infra(err)
